@@ -7,6 +7,7 @@ definitions the harness evaluates on the implementation's output.
 -/
 import Reamber.Lemmas.Qua
 import Reamber.Lemmas.QuaTextLex
+import Reamber.Lemmas.QuaTextFloat
 import Reamber.Lemmas.QuaTextStruct
 import Reamber.Generated.QuaTables
 
@@ -906,6 +907,27 @@ theorem qua_write_read_text (s : String) (c : Chart) (d' : Doc) (t' : Tree) (s' 
       rw [hw] at h1
       simp only [bind, Except.bind] at h1
       rw [h1]
+
+/-- the float lexemes of the class are exactly the sub-language `floatLex` of the resolver's float pattern (what
+`represent_float` writes): `scText_flt : floatLex l = true → scText (.flt l) = some l` (Lemmas/QuaTextFloat.lean);
+every int is in the class: `scText (.int i) = some (showInt i)` by definition, read back by `lexVal_showInt`. -/
+theorem flt_class (l : Str) : scText (.flt l) = some l ↔ floatLex l = true := by
+  constructor
+  · intro h
+    by_cases hl : lexVal l = some (.sc (.flt l))
+    · -- the lexer only answers `flt` from the `floatLex` branch of the resolver
+      by_contra hf
+      have hf' : floatLex l = false := by simpa using hf
+      have hp := lexVal_flt_plain hl
+      rw [lexVal_plain l hp] at hl
+      unfold resolve at hl
+      simp only [hf'] at hl
+      split at hl <;> try (simp at hl)
+      split at hl <;> try (simp at hl)
+      split at hl <;> try (simp at hl)
+      split at hl <;> try (simp at hl)
+    · simp [scText, hl] at h
+  · exact scText_flt l
 
 /-! ### non-vacuity: a document with a quoted number-like string, a string with `:` `#` `'`, an empty list, a float,
 a hold-less hit object with a nested key sound -/
